@@ -65,11 +65,13 @@ PROPS: dict = {
                     "transcription of the C++ (driver command CXX); end to end: the estimator with the compiled kernels re-bound where the "
                     "import switch binds them vs the fallback run; non-trivial = every kernel case / run with a multi-member cluster and a split",
             "proof_modules": ["BBProps.C13", "BBProofs.Kernels", "BBModel.Kernels"]},
-    "C14": {"suites": [multiround.suite_c14], "rule": RULE_MR + "; crash stream: for each small configuration a crash is injected before (or "
+    "C14": {"suites": [multiround.suite_c14, gen.suite_gen({"dump"})], "rule": RULE_MR + "; crash stream: for each small configuration a crash is injected before (or "
             "half-way through) every file effect of bblean.multiround (buffer-file write, pickle dump, rename, unlink), in a directory "
             "that already holds the outputs of an earlier run; then re-run to completion with same / changed-threshold / fewer-files "
-            "parameters and compare with a fresh-directory run; stale-directory stream: earlier run with more files and cleanup off",
-            "proof_modules": ["BBProps.C14", "BBProofs.Multiround", "BBProofs.Names"]},
+            "parameters and compare with a fresh-directory run; stale-directory stream: earlier run with more files and cleanup off"
+            "; S-GEN dump stream: multiround._pickle_dump_atomic for real (real files, existing final file / stale temporary file), its "
+            "effects recorded at the module's own open / pickle / os names vs the generated function, and the directory afterwards",
+            "proof_modules": ["BBProps.C14", "BBProofs.Multiround", "BBProofs.Names", "BBProofs.GenEq9", "BBProofs.GenEq", "BBGen.Gen", "BBModel.PyNum"]},
     "C17": {"proof_modules": ["BBProps.C17", "BBProofs.GenEq", "BBProofs.GenEq2", "BBProofs.GenEq3", "BBProofs.GenEq4", "BBProofs.GenEq5", "BBProofs.PyNum", "BBGen.Gen", "BBModel.PyNum"],
             "suites": [props_tree.c17, props_tree.c17_objects, gen.suite_gen({"config", "dispatch"})], "rule": RULE_TREE + "; configuration stream: constructor with names / merge-function objects / "
             "no criterion x tolerance given or not, set_merge with every subset of its arguments, setters, reset; S-C17-OBJECTS: estimators "
